@@ -64,6 +64,7 @@ struct udp_run
 		in_fault = true; do_op(o); in_fault = false;
 	}
 	bool fault_applied = false, in_fault = false;
+	bool v6 = false; // the whole program runs between IPv6 addresses
 
 	explicit udp_run(recorder& r) : rec(r) {}
 
@@ -217,7 +218,7 @@ struct udp_run
 		{
 			in_api = true;
 			if (op == "close") so.close(ec);
-			else if (op == "open") { so.open(udp::v4(), ec); so.non_blocking(true); }
+			else if (op == "open") { so.open(v6 ? udp::v6() : udp::v4(), ec); so.non_blocking(true); }
 			else so.cancel(ec);
 			in_api = false;
 			json::object e; e["e"] = "Op"; e["op"] = op; e["s"] = s; e["ec"] = "ok"; e["t"] = t;
@@ -318,11 +319,12 @@ struct udp_run
 			for (auto const& a : kv.value().as_array()) ips.push_back(w.real_addr(std::string(a.as_string().c_str())));
 			nodes[std::string(kv.key())].reset(new asio::io_context(*sim, ips));
 		}
+		v6 = getb(topo, "v6");
 		for (auto const& kv : topo.at("socks").as_object())
 		{
 			std::string n(kv.value().as_string().c_str());
 			auto* so = new udp::socket(*nodes[n]);
-			so->open(udp::v4());
+			so->open(v6 ? udp::v6() : udp::v4());
 			so->non_blocking(true);
 			socks[std::string(kv.key())].reset(so);
 		}
